@@ -79,7 +79,7 @@ def run_child(progfile, order, seed):
 def run(tier, seed):
     chk = Check("C18", tier, seed)
     rnd = random.Random(seed)
-    n = 120 if tier == "quick" else 1500
+    n = 120 if tier == "quick" else 600
     progs = programs(rnd, n)
     seeds = ["0", "1", "2", "random"] if tier == "quick" else ["0", "1", "2", "3", "17", "4242", "random"]
     hists = ["fresh", "forward", "reverse", "repeat"]
